@@ -116,3 +116,76 @@ Theorem C02_root_interleave : forall ts m ch,
   IL ts 0 (N.of_nat (length ts)) (obs_l ch).
 Proof. exact root_parse_il. Qed.
 Print Assumptions C02_root_interleave.
+
+(** --- the combinator engine (Pem) only produces well-formed matches.
+    [wf_safe_b g] is a decidable condition on the dumped grammar graph, evaluated on every dialect's
+    graph on every run: whatever can close a bracket is a parser of exactly one code token. *)
+From Coq Require Import FMapPositive.
+From Sq Require Import Pem.Model Pem.WfSafe Pem.Wf Pem.WfRoot Pem.WfExamples.
+
+(** Every successful match of every node of a safe graph - any tokens, regex answers, fuel, start
+    index, slice length and terminator context - is well-formed w.r.t. any token array at least as
+    long as the slice. *)
+Theorem Pem_match_node_wf : forall g toks rx fuel nd idx len terms m n,
+  wf_safe_b g = true -> idx <= len -> len <= n -> 0 < n ->
+  match_node g toks rx fuel nd idx len terms = ROk m -> wf n m = true.
+Proof. exact match_node_wf. Qed.
+Print Assumptions Pem_match_node_wf.
+
+(** The root match on the code span of a token array (the engine sees the array's code flags):
+    well-formed, inside the code span, and it starts at the first code token if it matched anything. *)
+Theorem Pem_parse_root_wf : forall g ptoks rx ts,
+  wf_safe_b g = true -> map p_code ptoks = map t_code ts ->
+  forall fuel m,
+  start_idx ts <> end_idx ts ->
+  parse_root g (toks_of_list ptoks) rx fuel (start_idx ts) (end_idx ts) = ROk m ->
+  wf (N.of_nat (length ts)) m = true /\ start_idx ts <= mr_start m /\ mr_end m <= end_idx ts /\
+  (has_match m = true -> mr_start m = start_idx ts).
+Proof. exact parse_root_wf. Qed.
+Print Assumptions Pem_parse_root_wf.
+
+(** ... i.e. the hypothesis [wf_root] of [C02_root] (a root match that matched nothing is only
+    looked at for its end: [Pem.WfRoot.root_parse_nomatch]). *)
+Theorem Pem_parse_root_wf_root : forall g ptoks rx ts,
+  wf_safe_b g = true -> map p_code ptoks = map t_code ts ->
+  forall fuel m,
+  start_idx ts <> end_idx ts ->
+  parse_root g (toks_of_list ptoks) rx fuel (start_idx ts) (end_idx ts) = ROk m ->
+  has_match m = true -> wf_root ts m = true.
+Proof. exact parse_root_wf_root. Qed.
+Print Assumptions Pem_parse_root_wf_root.
+
+(** End to end on the interpreter: for every safe graph, token array, regex oracle and fuel, if the
+    engine answers with a match then [root_parse] builds a File tree whose non-meta leaves are
+    exactly all tokens, in order. *)
+Theorem Pem_parse_keeps_every_token : forall g ptoks rx ts,
+  wf_safe_b g = true -> map p_code ptoks = map t_code ts ->
+  forall fuel m,
+  ts <> [] ->
+  parse_root g (toks_of_list ptoks) rx fuel (start_idx ts) (end_idx ts) = ROk m ->
+  exists ch, root_parse ts (GOk m) = Some (POk (Node K_File ch)) /\ leaves_l ch = map t_id ts.
+Proof. exact parse_keeps_every_token. Qed.
+Print Assumptions Pem_parse_keeps_every_token.
+
+(** Without the side condition the engine does produce ill-formed matches and [apply] duplicates
+    tokens: a two-token closing bracket of a [Bracketed] overlaps the content matched up to
+    [span.end - 1] ... *)
+Theorem Pem_wf_arbitrary_graph_refuted :
+  exists g ptoks rx fuel ts m ch,
+    ts = tks 0 ptoks /\ wf_safe_b g = false /\
+    parse_root g (toks_of_list ptoks) rx fuel (start_idx ts) (end_idx ts) = ROk m /\
+    wf_root ts m = false /\
+    root_parse ts (GOk m) = Some (POk (Node K_File ch)) /\ leaves_l ch = [0; 1; 2; 3; 2; 3].
+Proof. exact wf_arbitrary_graph_refuted. Qed.
+Print Assumptions Pem_wf_arbitrary_graph_refuted.
+
+(** ... and a non-code closing bracket of the bracket set is trimmed off the span of a greedy match
+    but not off the bracket child it collected. *)
+Theorem Pem_wf_greedy_bracket_refuted :
+  exists g ptoks rx fuel ts m ch,
+    ts = tks 0 ptoks /\ wf_safe_b g = false /\
+    parse_root g (toks_of_list ptoks) rx fuel (start_idx ts) (end_idx ts) = ROk m /\
+    wf_root ts m = false /\
+    root_parse ts (GOk m) = Some (POk (Node K_File ch)) /\ leaves_l ch = [0; 1; 2; 2; 3; 4].
+Proof. exact wf_greedy_bracket_refuted. Qed.
+Print Assumptions Pem_wf_greedy_bracket_refuted.
